@@ -344,13 +344,13 @@ LARGE = 4099
 def arr(xs): return '{' + ','.join(str(x) for x in xs) + '}'
 def shape_table():
     return {
-     1: dict(doc='natural: ext stride 3, base stride 1, index lists reversed (second operand: strides 4 / 2, lists in order with a gap)', s3=3, s1=1, so=3, i3=lambda W, k: 3 * (W - 1 - k), i1=lambda W, k: W - 1 - k, o3=lambda W, k: 3 * (W - 1 - k),
+     1: dict(doc='natural: ext stride 3, base stride 1, index lists reversed (second operand: strides 4 / 2, lists in order with a gap)', s3=3, s1=1, so=3, i3=lambda W, k: 3 * (W - 1 - k), i1=lambda W, k: W - 1 - k, o3=lambda W, k: 3 * ((k + 1) % W),
              s3b=4, s1b=2, i3b=lambda W, k: 4 * k + 1, i1b=lambda W, k: 2 * k + 1),
-     2: dict(doc='ext stride 1 (overlapping reads), base stride 3, output stride 5, index lists permuted and spread', s3=1, s1=3, so=5, i3=lambda W, k: 4 * ((5 * k + 3) % 11), i1=lambda W, k: (5 * k + 3) % 11, o3=lambda W, k: 4 * ((5 * k + 3) % 11),
+     2: dict(doc='ext stride 1 (overlapping reads), base stride 3, output stride 5, index lists permuted and spread', s3=1, s1=3, so=5, i3=lambda W, k: 4 * ((5 * k + 3) % 11), i1=lambda W, k: (5 * k + 3) % 11, o3=lambda W, k: 4 * ((3 * k + 1) % 11),
              s3b=2, s1b=5, i3b=lambda W, k: 3 * ((7 * k + 2) % 11), i1b=lambda W, k: (7 * k + 2) % 11),
      3: dict(doc='input strides 0 (every element reads element 0), output stride 4, input index lists constant 5, output lists permuted', s3=0, s1=0, so=4, i3=lambda W, k: 5, i1=lambda W, k: 5, o3=lambda W, k: 3 * ((5 * k + 3) % 11),
              s3b=0, s1b=0, i3b=lambda W, k: 2, i1b=lambda W, k: 7),
-     4: dict(doc='large strides %d, index lists k*%d' % (LARGE, LARGE), s3=LARGE, s1=LARGE, so=LARGE, i3=lambda W, k: k * LARGE, i1=lambda W, k: k * LARGE, o3=lambda W, k: k * LARGE,
+     4: dict(doc='large strides %d, index lists k*%d' % (LARGE, LARGE), s3=LARGE, s1=LARGE, so=LARGE + 1, i3=lambda W, k: k * LARGE, i1=lambda W, k: k * LARGE, o3=lambda W, k: ((k + 1) % W) * LARGE,
              s3b=LARGE + 2, s1b=LARGE + 2, i3b=lambda W, k: (W - 1 - k) * LARGE, i1b=lambda W, k: (W - 1 - k) * LARGE),
     }
 def shapes_inc():
